@@ -181,12 +181,14 @@ def counted_progress(fn, header, body):
         if not inside or not any(d[1] not in body for d in ds) and not (1 <= l <= fn.arg_count):
             continue
         kinds = set()
+        steps = set()
         for d in inside:
             k = None
             if d[0] == 'assign':
                 v = strip(psc.sym_rv(fn, d[3]))
                 if v[0] == 'binop' and v[1] in ('Sub', 'Add') and strip(v[2]) == ('mlocal', l) and strip(v[3])[0] == 'int' and strip(v[3])[1] > 0:
                     k = v[1]
+                    steps.add(strip(v[3])[1])
             kinds.add(k)
         if len(kinds) != 1 or None in kinds:
             continue
@@ -202,7 +204,7 @@ def counted_progress(fn, header, body):
                 other = b_ if a == ('mlocal', l) else a
                 if not any(d2[1] in body for m_ in psc.mlocals(other) for d2 in defs.get(m_, [])):
                     ok = True
-            if kind == 'Add' and c[1] in ('Lt', 'Le', 'Gt', 'Ge', 'Ne') and (a == ('mlocal', l) or b_ == ('mlocal', l)):
+            if kind == 'Add' and (c[1] in ('Lt', 'Le', 'Gt', 'Ge') or (c[1] in ('Ne', 'Eq') and steps == {1})) and (a == ('mlocal', l) or b_ == ('mlocal', l)):
                 other = b_ if a == ('mlocal', l) else a
                 if not any(d2[1] in body for m_ in psc.mlocals(other) for d2 in defs.get(m_, [])):
                     ok = True
